@@ -61,6 +61,7 @@ def run(ck):
     n = 24 if ck.tier == "quick" else 300
     terms, expect = [], []
     dist = {}
+    model_shape_errors = []
     for i in range(n):
         kind = ck.rng.choice(["white", "red", "alpha", "pink"])
         par = gen_params(ck.rng, kind)
@@ -70,7 +71,10 @@ def run(ck):
         inp = dict(kind=kind, params=par, seed=seed, sizes=sizes)
         # --- direct oracle on the implementation
         g1 = make_gen(kind, par, seed, False); g2 = make_gen(kind, par, seed, False); g3 = make_gen(kind, par, seed, False)
-        secs, z0, scale = model_inputs(g3, kind)
+        try:
+            secs, z0, scale = model_inputs(g3, kind)
+        except Exception as e:      # the generator's internals no longer have the modelled shape: the model part is skipped for this case
+            secs = None; model_shape_errors.append("%s: %s: %s" % (kind, type(e).__name__, str(e)[:80]))
         parts = [np.asarray(g1.get_series(s), float) for s in sizes]
         a = np.concatenate(parts) if parts else np.zeros(0)
         b = np.asarray(g2.get_series(int(sum(sizes))), float)
@@ -94,7 +98,7 @@ def run(ck):
         # (get_series after get_sample continues beyond the prefetched buffer by design: mixing the two call styles is not
         #  part of the property, which speaks of sequences of get_series calls and of get_sample runs)
         # --- model: white stream recorded from a twin RNG; cascade/generator evaluated in Coq at binary64
-        if kind != "white" and sum(sizes) <= 600:
+        if kind != "white" and sum(sizes) <= 600 and secs is not None:
             total = int(sum(sizes))
             rms = float(np.sqrt(1.0 * par["fs"]))
             rng = np.random.default_rng(seed)
@@ -126,6 +130,7 @@ def run(ck):
                 bad.append("%s seed=%r sizes=%s: implementation samples differ from the cascade model (first impl %r, model %r)" % (kind, inp["seed"], inp["sizes"], list(a[:2]), outs[:2]))
     elif not bad:
         bad.append("expected %d model results, got %d" % (len(expect), len(evs)))
+    ck.obligation("model-shape:generator internals (sections, initial state, scaling) readable as modelled", not model_shape_errors, "; ".join(model_shape_errors[:3]))
     ck.obligation("correspondence:alpha/pink/red generators == Noise.get_many at binary64 (bit-exact samples, recorded white stream)", not bad, "; ".join(bad[:3]))
     # oracle contract: Generator.normal is chunk-consistent and seed-deterministic
     ok = True
